@@ -1350,6 +1350,16 @@ class BuiltinsMixin(object):
             out.append((p, acc if acc is not None else Const('')))
         return out
 
+    def ex_NamedExpr(self, node, fr, path):
+        out = []
+        for (p, v) in self.eval(node.value, fr, path):
+            if isinstance(v, Raise):
+                out.append((p, v))
+                continue
+            for (q, sig) in self.assign(node.target, v, fr, p, node):
+                out.append((q, v if sig is None else sig))
+        return out
+
     def ex_Starred(self, node, fr, path):
         self.inconclusive('starred expression', node)
 
@@ -1418,6 +1428,36 @@ class BuiltinsMixin(object):
                 if (not pol) and ci.is_subclass_of(k):
                     return False
         return None
+
+    def _synthetic_comp(self, src, bindings, path, node):
+        """evaluate a comprehension written over synthetic names"""
+        fr = self.stack_frame_for_synthetic(path)
+        h = path.heap[fr]
+        h.vars.update(bindings)
+        e = ast.parse(src, mode='eval').body
+        for n in ast.walk(e):
+            ast.copy_location(n, node)
+        return self.eval(e, fr, path)
+
+    def bi_map(self, args, kw, path, node):
+        # map(f, xs) is (f(x) for x in xs)
+        if len(args) != 2 or kw:
+            return [(path, App('call', BRef('map'), Tup(tuple(args))))]
+        return self._synthetic_comp('[__map_f(__map_x) for __map_x in '
+                                    '__map_xs]',
+                                    {'__map_f': args[0], '__map_xs': args[1]},
+                                    path, node)
+
+    def bi_filter(self, args, kw, path, node):
+        if len(args) != 2 or kw:
+            return [(path, App('call', BRef('filter'), Tup(tuple(args))))]
+        if args[0] == Const(None):
+            return self._synthetic_comp(
+                '[__flt_x for __flt_x in __flt_xs if __flt_x]',
+                {'__flt_xs': args[1]}, path, node)
+        return self._synthetic_comp(
+            '[__flt_x for __flt_x in __flt_xs if __flt_f(__flt_x)]',
+            {'__flt_f': args[0], '__flt_xs': args[1]}, path, node)
 
     def bi_reduce(self, args, path, node):
         """functools.reduce(f, xs, init) is the loop
@@ -1591,6 +1631,23 @@ class BuiltinsMixin(object):
 
     def bi_next(self, args, kw, path, node):
         it = args[0]
+        if isinstance(it, Obj) and path.heap[it.oid].kind == 'list' and \
+                len(args) == 1:
+            h = path.heap[it.oid]
+            if len(h.parts) == 1 and len(h.parts[0].gens) == 1 and \
+                    h.parts[0].kind == 'elem' and \
+                    h.parts[0].val == h.parts[0].gens[0][0] and \
+                    not path.loops[h.loops_len:]:
+                # next(x for x in XS if c(x)): the first x of XS with c(x);
+                # what is known about it: it comes from XS and c holds
+                # (StopIteration when there is none is an implicit raise)
+                part = h.parts[0]
+                var, src = part.gens[0]
+                e = path.fresh('nx', var.typ, meta=('elem', src))
+                from .values import subst_value
+                for (c, pol) in part.conds:
+                    self.assume(subst_value(c, {var: e}), pol, path)
+                return [(path, e)]
         if isinstance(it, App) and it.op == 'iter':
             src = it.args[0]
             return [(path, path.fresh('nx', self.hooks.iter_elem_type(
